@@ -163,8 +163,9 @@ Definition convert_scalar (i o : dtype) (v : num) : num :=
 
 (* Does the transformer write into the caller's buffer?  Only when it was
    allowed to (preserve_input=False), there is an in-place stage, and
-   np.asarray(chunk, dtype=work) did not have to copy: same dtype (a
-   byte-swapped chunk passes the "equiv" assertion but is converted, hence
+   np.asarray(chunk, dtype=work) did not have to copy: same dtype INCLUDING
+   byte order ([native] = the chunk's byte order is the work dtype's; a chunk in
+   the other byte order passes the "equiv" assertion but is converted, hence
    copied) and the array is writeable (a read-only one is copied). *)
 Definition aliased (i o : dtype) (preserve writeable native : bool) : bool :=
   negb preserve && (round_flag i o || clip_flag i o)
@@ -175,6 +176,18 @@ Definition convert (i o : dtype) (preserve writeable native : bool) (l : list nu
   : list num * list num :=
   (map (convert_scalar i o) l,
    if aliased i o preserve writeable native then map (work_value i o) l else l).
+
+(* Byte order.  The chunk and the input dtype given to the factory may each be
+   native or byte-swapped (the assertion admits any mix).  promote_types
+   returns a native dtype, so the work dtype is native -- except on the
+   integer path (signed -> uint64), where it IS the factory's input dtype,
+   byte order included.  Values never depend on byte order; only aliasing does. *)
+Definition order_matches (i o : dtype) (chunk_native factory_native : bool) : bool :=
+  if int_via_float i o then Bool.eqb chunk_native factory_native else chunk_native.
+
+Definition convert_bo (i o : dtype) (preserve writeable chunk_native factory_native : bool)
+           (l : list num) : list num * list num :=
+  convert i o preserve writeable (order_matches i o chunk_native factory_native) l.
 
 (* ---- specification ------------------------------------------------------ *)
 
